@@ -190,7 +190,16 @@ def check_escaper(res, esc):
     E = mprop.engine(res)
     body, methods = find_write_str(E, esc.file, esc.fn)
     if body is None:
-        res.inconclusive.append("%s: no single fmt::Write::write_str inside %s" % (esc.name, esc.fn))
+        # the escaper is not the local fmt::Write adapter the inductive step is written for: decide by the
+        # native replay (every 1- and 2-byte ASCII string through the real function, output parsed)
+        ok = native(res, esc)
+        note = [n for n in res.notes if n.startswith("native replay")][-1:] or [""]
+        if ok:
+            fn = mprop.write_cex(res, "%s_native" % esc.name, mir.Path(mir.State(), {}, "static"), E,
+                                 "%s has no escaping adapter of the expected shape; %s" % (esc.name, note[0]))
+            res.violation("native:%s:malformed-output" % esc.name, "%s produces output that does not parse back to the value (%s)" % (esc.name, note[0]), fn)
+        else:
+            res.inconclusive.append("%s: no single fmt::Write::write_str inside %s%s" % (esc.name, esc.fn, "; native replay passed" if ok is False else ""))
         return
     res.functions.append("%s: %s (MIR, %d blocks)" % (esc.name, body.name, len(body.blocks)))
     bad = {}
